@@ -397,6 +397,18 @@ pub fn gen(rng: &mut Rng, tier: Tier, out: &mut Vec<String>) {
         let thr = m * 10f32.powi(-(e as i32)) * rng.f32_in(0.5, 2.0);
         out.push(format!("apx {} {} {} {}", k, n, hexes(&w), h32(thr)));
     }
+    // MANY segments (the property says "for every segment count"): 12..40 segments with ordinary thresholds,
+    // and one 22-segment spline (64 control points) whose criterion is never met, so that every branch of the
+    // subdivision runs to the depth bound (whatever bounds the recursion by a fixed-size structure shows here)
+    for i in 0..(if q { 6 } else { 120 }) {
+        let (k, dim) = kind(rng);
+        let segs = if i == 0 { 22 } else { rng.range(12, 41) as usize };
+        let n = 3 * segs + 1;
+        let w = polygon(rng, n, dim);
+        let m = w.iter().fold(0.0f32, |a, x| a.max(x.abs())).max(1e-30);
+        let thr = if i == 0 { 0.0 } else { m * 10f32.powi(-(rng.range(1, 5) as i32)) };
+        out.push(format!("apx {} {} {} {}", k, n, hexes(&w), h32(thr)));
+    }
     // halt never / always true
     for thr in [0.0f32, f32::INFINITY] {
         let (k, dim) = kind(rng);
